@@ -224,7 +224,12 @@ class Prov:
             return [("op", "tuple", [self._first(self._orig(x, func, node, depth - 1, stack)) for x in e.elts])]
         if isinstance(e, (ast.ListComp, ast.SetComp, ast.GeneratorExp)):
             srcs = [self._first(self._orig(g.iter, func, node, depth - 1, stack)) for g in e.generators]
-            return [("op", "comp", srcs + [("unknown", norm(e.elt))])]
+            # last operand: provenance of the element expression (its loop variables resolve to elements of the sources)
+            try:
+                elt = self._first(self._orig(e.elt, func, node, depth - 2, stack)) if depth > 3 else ("unknown", norm(e.elt))
+            except AnalysisError:
+                elt = ("unknown", norm(e.elt))
+            return [("op", "comp", srcs + [elt])]
         if isinstance(e, ast.DictComp):
             srcs = [self._first(self._orig(g.iter, func, node, depth - 1, stack)) for g in e.generators]
             return [("op", "comp", srcs)]
